@@ -541,6 +541,9 @@ def c15_f(ctx: Ctx):
         (SP, "selection", "a selection given as a generator is exhausted by the first pass"),
     ])
     out += sentinel_discipline(ctx, R, [(SP, "selection", "an empty selection (no job chosen, a cursor that matches nothing) is a selection: treated as 'not given' every source job is cloned / synchronised")])
+    # parallel == sequential also requires that every task is bound to its own job (no closure that picks up a later element)
+    from .lints import late_binding_in_loops
+    out += late_binding_in_loops(ctx, R, ("signac.sync",))
     # parallel vs sequential
     inner = sp.nested.get("_clone_or_sync")
     par = [n for n in body_nodes(sp) if isinstance(n, ast.Call) and isinstance(n.func, ast.Attribute) and n.func.attr in ("imap", "map", "imap_unordered")]
